@@ -165,6 +165,12 @@ func c15Exec(t *testing.T, p *Plan) (r *c15Result) {
 		r.answers = dw.answers
 		sn := NewSimNet()
 		sn.Hosts["distributor.example"] = http.HandlerFunc(func(rw http.ResponseWriter, rq *http.Request) {
+			if strings.HasPrefix(rq.URL.Path, "/redirected") && p.Cfg.Notes["redirect_target"] == "200" {
+				// a distributor (or something in front of it) whose redirect target is a friendly landing page
+				rw.WriteHeader(200)
+				rw.Write([]byte("welcome"))
+				return
+			}
 			if rq.Method != http.MethodPut || !strings.HasPrefix(rq.URL.Path, "/distributor/v0/logs/") {
 				http.NotFound(rw, rq)
 				return
@@ -261,7 +267,7 @@ func oracleC15(p *Plan, r *c15Result) []Violation {
 			}
 		}
 	}
-	failures := 0
+	failures, either := 0, 0
 	nput := 0
 	for i, ld := range w.Logs {
 		kind := "valid"
@@ -313,9 +319,20 @@ func oracleC15(p *Plan, r *c15Result) []Violation {
 			add("put_body_modified", "body", fmt.Sprintf("log %d: PUT body %s is not the witness's answer %s", i, short(q.Body), short(r.answers[ld.ID])))
 		}
 		okNet := netf == "" || strings.HasPrefix(netf, "delay")
-		if !okNet {
+		if (netf == "redirect:307" || netf == "redirect:308") && p.Cfg.Notes["redirect_target"] == "200" {
+			// a method-preserving redirect whose target accepts the PUT: the checkpoint was delivered and answered 200 there;
+			// the property does not say which way this counts
+			either++
+		} else if !okNet {
 			failures++
 		}
+	}
+	if either > 0 {
+		// the number of failures is only known to lie in [failures, failures+either]
+		if r.err == nil && failures > 0 {
+			add("error_count_wrong", "nil_mismatch", fmt.Sprintf("at least %d logs failed (answers %v, network %v) but DistributeOnce returned nil", failures, r.kinds, r.net))
+		}
+		return out
 	}
 	if (failures > 0) != (r.err != nil) {
 		add("error_count_wrong", "nil_mismatch", fmt.Sprintf("%d logs failed (answers %v, network %v) but DistributeOnce returned %v", failures, r.kinds, r.net, r.err))
@@ -356,6 +373,7 @@ func init() {
 				net = append(net, Pick(r, c15Net...))
 			}
 			p.Cfg.Notes = map[string]string{"answers": strings.Join(ans, ","), "net": strings.Join(net, ","),
+				"redirect_target": Pick(r, "404", "200"),
 				"witname": Pick(r, "wit0", "wit0", "witness.example/w1", "w%41", "wit?x#y", "ŵit-ness", "a:b@c", "wit&co=1")}
 			return p
 		},
